@@ -174,8 +174,15 @@ func c16Exec(t *testing.T, run *vk.Run, c c16Case) {
 		g := &ScriptGetter{C: chain, NetHead: n}
 		for i, p := range c.P {
 			policy := "window"
+			hashSet := p.FromHash != ""
+			if strings.HasPrefix(p.FromHash, "c") {
+				// c16Opts only passes a hash the chain has: "c6" on a 3-header chain configures nothing
+				var hh uint64
+				fmt.Sscanf(p.FromHash, "c%d", &hh)
+				hashSet = chain.At(hh) != nil
+			}
 			switch {
-			case p.FromHash != "":
+			case hashSet:
 				policy = "hash:" + map[bool]string{true: "unknown", false: "known"}[p.FromHash == "unknown"]
 			case p.FromHeight > n:
 				policy = "height>N"
